@@ -117,6 +117,8 @@ def build_message(kind, peer, idx, salt):
     if kind == "unknown":
         d = _h("unk", peer, idx, salt)
         name = b"zq" + bytes(97 + b % 26 for b in d[:8])  # never a protocol command, no parser, no handler
+        # the name's length varies over the whole 12-byte field: 10 mostly, else 2, 3, 11 or 12 (12 leaves no padding NUL)
+        name = (name + b"yx")[: (10, 10, 10, 10, 12, 12, 11, 3, 2)[(salt >> 12) % 9]]
         return name, d[8 : 8 + salt % 9]
     raise ValueError(kind)
 
@@ -431,6 +433,8 @@ def _case_labels(peers):
         out.append("kind:" + k)
     for m in peers:
         for k, salt in m:
+            if k == "unknown" and (salt >> 12) % 9 in (4, 5):
+                out.append("nt:case/unknown-command-fills-12-bytes")
             if k in ("inv", "addr") and (salt >> 8) % (8 * (4 if k == "addr" else 2)) < (4 if k == "addr" else 2):
                 out.append(f"nt:case/{k}-boundary-count")
                 if k == "addr" and (salt >> 8) % 32 == 0:
@@ -757,7 +761,7 @@ def targets(tier):
             strategy=lambda tier: sampled_cases(),
             budget={"quick": 4000, "thorough": 50000},
             required=[NT, "nt:exec/library-logging-at-its-own-level", "case:peers-2", "case:peers-3", "nt:case/addr-boundary-count", "nt:case/inv-boundary-count",
-                      "nt:case/addr-1000-entries"] + ["kind:" + k for k in KINDS],
+                      "nt:case/addr-1000-entries", "nt:case/unknown-command-fills-12-bytes"] + ["kind:" + k for k in KINDS],
         ),
         Target(
             "walks-3x2",
